@@ -33,7 +33,7 @@ def build_binary(log, asan=False):
         env["RUSTFLAGS"] = "-Coverflow-checks=on -Cdebug-assertions=on"
         cmd = ["cargo", "build", "--release", "--offline", "--bin", "rdest", "--target-dir", tgt]
         path = os.path.join(tgt, "release", "rdest")
-    p = subprocess.run(cmd, cwd="/repo", env=env, stdout=subprocess.PIPE, stderr=subprocess.STDOUT, text=True)
+    p = subprocess.run(cmd, cwd=os.environ.get("VERIF_REPO_DIR", "/repo"), env=env, stdout=subprocess.PIPE, stderr=subprocess.STDOUT, text=True)
     if p.returncode != 0:
         log(p.stdout[-3000:])
         return None
@@ -267,7 +267,7 @@ def miri(cid, tier, seed, jobs, scale, outdir, m, log):
     if cid not in MIRI_PLAN or scale < 0.5:
         return
     parts, mscale = MIRI_PLAN[cid]
-    harness = os.path.join(VERIF, "harness")
+    harness = os.environ.get("VERIF_HARNESS_DIR", os.path.join(VERIF, "harness"))
     env = dict(os.environ, CARGO_NET_OFFLINE="true")
     shards = 8
     mdir = os.path.join(outdir, "miri")
